@@ -30,11 +30,14 @@ def preset_calls(rng, S):
     amp = lambda: rng.choice([4, -8, 12])
     for l in S:
         o, s = S[l]
-        calls.append(["addCoulombS", l, amp(), rng.choice([0, 4])])
+        calls.append(["addCoulombS", l, rng.choice([4, -8, 12, 0]), rng.choice([0, 4])])      # both amplitudes are guarded at zero in the code
         calls.append(["addLevel", l, amp()])
         if o > 1 and s > 1:
             calls.append(["addCoulombP", l, 8, rng.choice([4, 12]), rng.choice([0, 4]), rng.choice([0, 4])])
             calls.append(["addCoulombP3", l, 12, rng.choice([4, -4]), -8])
+            # every amplitude that the code guards with "if (std::abs(x))" at zero while the others are not
+            calls.append(["addCoulombP", l] + rng.choice([[8, 0, 4, 0], [0, 0, 4, 4], [0, 4, 0, 0], [0, 12, 4, 4], [8, 0, -4, 4]]))
+            calls.append(["addCoulombP3", l] + rng.choice([[8, 4, -8], [8, 4, 0], [-8, -4, 4], [0, 4, 0]]))     # U' = U - 2J = 0 in the first three
         if s == 2:
             calls.append(["addSzSz", l, l, amp()])
             calls.append(["addSS", l, l, amp()])
@@ -101,6 +104,9 @@ def main():
         if not thorough:
             rng.shuffle(calls)
             calls = calls[:6]
+        if any(o > 1 and sp > 1 for (o, sp) in S.values()):
+            # the zero-amplitude regimes of the Kanamori preset are always included
+            calls += [x for x in preset_calls(rng, S) if x[0].startswith("addCoulombP") and 0 in x[2:5]][:2]
         for cl in calls:
             n += 1
             scen.append(models.model("p%d" % n, lay, [["Preset", 1, cl]], partition=part, queries=q))
